@@ -3,7 +3,8 @@
 translate (extract/op_tables.py) -> prove (HawkModel.Props.C08) -> build the sanitized CLI from the working
 tree -> generate expression trees -> for every tree write the nine variant programs (literal operands [folded at
 parse time], undeclared named variables, @global, @local, parameters, by-reference parameters, map elements with
-string / integer subscripts, hawk::array() elements), run them on the real interpreter ->
+string / integer subscripts, hawk::array() elements; and, for the block-locals family, 36 placements in the `@local`s of
+nested blocks at depth 1..3 over a history in the same frame slots: BLOCK_VARIANTS), run them on the real interpreter ->
 
   1. PROPERTY ORACLE, on hawk's own output only: no crash / sanitizer report / hang; all variants of one tree print
      the same `typename [value]` line for the result and for the final value of every operand variable (or fail
@@ -39,8 +40,35 @@ EXTRA_VARIANTS = ["gmap", "lmap", "amap", "refm", "refa", "refg", "refl", "refp"
 #  refpos     by-reference parameters whose arguments are fields
 UNMODELLED_VARIANTS = ["nmap", "narr", "mapc", "refn", "pos", "pos0", "refpos"]
 POS_VARIANTS = ("pos", "pos0", "refpos")
-ALL_VARIANTS = VARIANTS + HIST_VARIANTS + EXTRA_VARIANTS + UNMODELLED_VARIANTS
-MODELLED = set(VARIANTS + EXTRA_VARIANTS)
+# BLOCK-LEVEL LOCALS (run_block0 / parse_block): the operands are `@local`s of a NESTED block. The parser migrates them
+# to the frame of the outermost block (slot = outer_nlcls + position) and run_block0 resets the slots
+# [outer_nlcls, outer_nlcls + org_nlcls) on every entry. Name: blk<d><o|n>-<history>
+#   d = 1..3   nesting depth of the block that holds the operands
+#   o / n      the enclosing blocks declare locals of their own (outer_nlcls >= 1) / none (outer_nlcls = 0)
+#   history    what used the same frame slots before: sib = a sibling block at the same depth, deep = a sibling whose own
+#              nested block overlaps the slots shifted by one, loop = the previous iteration of the loop whose body the
+#              block is, call = the previous call of the same function. The history leaves values of OTHER types
+#              (strings where integers go, integers where strings or nil go, a map).
+# An operand that starts as nil is not assigned before the evaluation: it must read as nil whatever the history.
+# The enclosing blocks' own locals hold sentinels that must survive (a reset that reaches too far shows as CLOBBERED).
+# The lines must equal those of the `lcl` placement (and of the model's `lcl` line).
+#              rec = RE-ENTRANCY: the function fills the block's locals, calls itself (the inner activation evaluates
+#              the expression in ITS frame: fresh nils) and afterwards must find its own locals untouched by the callee.
+BLOCK_HISTS = ["sib", "deep", "loop", "call"]
+BLOCK_VARIANTS = ["blk%d%s-%s" % (d, o, h) for d in (1, 2, 3) for o in ("o", "n") for h in BLOCK_HISTS]
+REC_VARIANTS = ["blk%d%s-rec" % (d, o) for d in (1, 2, 3) for o in ("o", "n")]      # no call statement in the Lean model: compared with `lcl`
+#              ref = the block's locals (after a sibling's history) are the ARGUMENTS of by-reference parameters of a
+#              function that evaluates the expression (get_reference on HAWK_NDE_LCL, copy-back into the frame slot)
+BREF_VARIANTS = ["blk%d%s-ref" % (d, o) for d in (1, 2, 3) for o in ("o", "n")]     # compared with the model's `refl` line
+ALL_VARIANTS = VARIANTS + HIST_VARIANTS + EXTRA_VARIANTS + UNMODELLED_VARIANTS + BLOCK_VARIANTS + REC_VARIANTS + BREF_VARIANTS
+MODELLED = set(VARIANTS + EXTRA_VARIANTS + BLOCK_VARIANTS)   # block variants: the driver runs ExprBlock.run on compileTop's output
+MODEL_ALIAS = {v: "lcl" for v in REC_VARIANTS}      # which model line a variant is compared with, if not its own
+MODEL_ALIAS.update({v: "refl" for v in BREF_VARIANTS})
+
+
+def model_base(variant):
+    b = base_of(variant)
+    return MODEL_ALIAS.get(b, b)
 # variants that write a unary operator as the bare right operand of ** (`a ** -b`: parse_unary_exp, no folding)
 BARE_EXP = ("gbl", "arg", "mapi", "lit+h", "named+ha", "refm", "lmap")
 
@@ -406,7 +434,7 @@ def slot_name(variant, c, i, info=None):
         return "v%d_%d" % (c, i)
     if variant in ("gbl", "refg"):
         return "G%d_%d" % (c, i)
-    if variant in ("lcl", "refl"):
+    if variant in ("lcl", "refl") or variant.startswith("blk"):
         return "l%d" % i
     if variant == "arg":
         return "p%d" % i
@@ -485,6 +513,13 @@ def case_fragment(variant, c, tree, sp):
         loc = ", ".join(["r"] + ([name(i) for i in range(n)] if base == "lcl" else ["LM"]))
         funs.append("function F%d() { @local %s; %s r = %s; %s }" % (c, loc, " ".join(pre), expr, pr))
         body.append("F%d();" % c)
+    elif base.startswith("blk"):
+        if base.endswith("-ref"):
+            funs.append("function G%d(%s) { return %s; }" % (c, ", ".join("&p%d" % i for i in range(n)),
+                                                             render(tree, sp, lambda i: "p%d" % i, is_lit, bare)))
+            expr = "G%d(%s)" % (c, ", ".join(name(i) for i in range(n)))
+        funs.append(block_function(base, c, info, pre, expr, pr))
+        body.append("F%d(1); F%d(0);" % (c, c) if base.endswith("-call") else ("F%d(1);" % c if base.endswith("-rec") else "F%d(0);" % c))
     elif base == "amap":
         funs.append("function F%d(AM) { @local r; %s r = %s; %s }" % (c, " ".join(pre), expr, pr))
         body.append("F%d();" % c)
@@ -511,6 +546,61 @@ def case_fragment(variant, c, tree, sp):
     else:
         raise ValueError(variant)
     return decl, funs, body
+
+
+def junk_for(leaf, i):
+    """a value of another type than the operand the slot is going to hold"""
+    k = leaf[0]
+    if i % 5 == 4:
+        return None                      # a map
+    if k in ("i", "f"):
+        return '"J%d"' % i
+    if k in ("s", "c"):
+        return "%d" % (40 + i)
+    if k in ("m", "b"):
+        return "2.5"
+    return ('"40"', "40", "4.5", '@b"40"')[i % 4]      # nil operand
+
+
+def block_function(base, c, info, pre, expr, pr):
+    """function F<c>(md, r, it): the operands are locals l0.. of a block at depth d (see BLOCK_VARIANTS)"""
+    d = int(base[3]); own = base[4] == "o"; hist = base.split("-")[1]
+    n = len(info.vals)
+    ls = ["l%d" % i for i in range(n)]
+
+    def junk(names, shift=0):
+        out = []
+        for i, nm in enumerate(names):
+            j = junk_for(info.vals[min(i + shift, n - 1)] if n else ("n",), i)
+            out.append("%s[1] = 1;" % nm if j is None else "%s = %s;" % (nm, j))
+        return " ".join(out)
+    keeps = ["k%d" % j for j in range(d)] if own else []
+    guard = " && ".join('%s == "K%d"' % (k, j) for j, k in enumerate(keeps))
+    if guard:
+        pr = pr.replace('print "%d\\t" T(r)' % c, 'print "%d\\t" ((%s) ? "" : "CLOBBERED ") T(r)' % (c, guard), 1)
+    use = "%s r = %s; %s" % (" ".join(pre), expr, pr)
+    loc = "@local %s;" % ", ".join(ls)
+    if hist in ("sib", "ref"):
+        inner = "{ @local %s; %s } { %s %s }" % (", ".join("z%d" % i for i in range(n)), junk(["z%d" % i for i in range(n)]), loc, use)
+    elif hist == "deep":
+        zs = ["z%d" % i for i in range(n)]
+        inner = "{ @local y; y = \"Y\"; { @local %s; %s } } { %s %s }" % (", ".join(zs), junk(zs, 1), loc, use)
+    elif hist == "loop":
+        inner = "for (it = 0; it < 2; it++) { %s if (it == 0) { %s continue; } %s }" % (loc, junk(ls), use)
+    elif hist == "rec":
+        jl = [(nm, junk_for(info.vals[i], i)) for i, nm in enumerate(ls)]
+        intact = " && ".join("%s === %s" % (nm, j) for nm, j in jl if j is not None) or "1"
+        inner = ('{ %s if (md) { %s F%d(0); if (!(%s)) print "%d\\tCLOBBERED-BY-CALLEE"; return; } %s }'
+                 % (loc, junk(ls), c, intact, c, use))
+    else:
+        inner = "{ %s if (md) { %s return; } %s }" % (loc, junk(ls), use)
+    # wrap: depth d-1 .. 1 intermediate blocks, then the function block (depth 0)
+    text = inner
+    for j in range(d - 1, 0, -1):
+        text = "{ %s %s }" % ('@local k%d; k%d = "K%d";' % (j, j, j) if own else "", text)
+    head = '@local r, k0; k0 = "K0";' if own else ""
+    params = "md, it" if own else "md, r, it"
+    return "function F%d(%s) { %s %s }" % (c, params, head, text)
 
 
 def program(variant, cases, sp, flush=False):
@@ -640,7 +730,7 @@ class Runner:
         self.run_batch(variant, rest[mid:], res)
 
 
-def run_all(ctx, runner, trees, model, keep, hist=(), extra=(), batch=150):
+def run_all(ctx, runner, trees, model, keep, hist=(), extra=(), batch=150, blk=()):
     """trees: list of trees. model[(c, variant)] = model line. keep: indices to run; hist: indices that are also run
     in the history variants. Returns hres[(c, variant)]"""
     jobs = []
@@ -652,7 +742,9 @@ def run_all(ctx, runner, trees, model, keep, hist=(), extra=(), batch=150):
             if v in EXTRA_VARIANTS or v in UNMODELLED_VARIANTS:
                 if c not in extra or not applicable(v, t):
                     continue
-            m = model.get((c, base_of(v)) if base_of(v) in MODELLED else (c, "named"), "")
+            if v.startswith("blk") and c not in blk:
+                continue
+            m = model.get((c, model_base(v)) if model_base(v) in MODELLED else (c, "named"), "")
             if m == "SKIP":
                 continue
             # predicted failures run alone so that they do not abort their neighbours
@@ -676,12 +768,15 @@ def run_all(ctx, runner, trees, model, keep, hist=(), extra=(), batch=150):
     return hres
 
 
-def run_model(ctx, trees, extra=None):
+def run_model(ctx, trees, extra=None, blk=None):
     lines = []
     keys = []
     for c, t in enumerate(trees):
         tk = " ".join(tokens(t))
-        for v in VARIANTS + (EXTRA_VARIANTS if (extra is None or c in extra) else []):
+        in_extra = extra is None or c in extra
+        in_blk = blk is None or c in blk
+        # (the by-reference block placements are compared with the `refl` line)
+        for v in VARIANTS + (EXTRA_VARIANTS if in_extra else []) + (BLOCK_VARIANTS if in_blk else []) + (["refl"] if in_blk and not in_extra else []):
             lines.append(v + " " + tk)
             keys.append((c, v))
     # the driver evaluates every line under five salts: split the work over a few driver processes
@@ -1196,7 +1291,27 @@ def build_cases(ctx):
         extra.add(c)
     for c in rng.sample(plain, min(len(plain), 500 if q else 4000)):
         extra.add(c)
+    # the block-locals family: every tree with an operand that starts as nil (it is never assigned before the evaluation, so
+    # only the reset on block entry makes it nil) among the one-operator trees, the pairs and the corpus; a seeded sample of the rest
+    blk = set()
+    nilled, rest = [], []
+    for c, t in enumerate(trees):
+        if tags[c] == "corpus":
+            blk.add(c)
+        elif has_in(t):
+            continue
+        elif any(v[0] == "n" for v in Info(t).vals):
+            nilled.append(c)
+        else:
+            rest.append(c)
+    for c in rng.sample(nilled, min(len(nilled), 700 if q else 4000)):
+        blk.add(c)
+    for c in rng.sample(rest, min(len(rest), 300 if q else 1500)):
+        blk.add(c)
+    BLK_FAMILY[0] = blk
     return trees, tags, pair_idx, hist, extra
+
+BLK_FAMILY = [set()]
 
 
 HIST_LEAVES = [("s", "10"), ("s", "9"), ("s", "10.0"), ("s", "1.5"), ("s", "-1"), ("s", "1e1"), ("s", "abc"), ("s", " 10"),
@@ -1275,7 +1390,7 @@ def run(ctx):
     trees, tags, pair_idx, hist, extra = build_cases(ctx)
     ctx.log("%d expression trees x %d variants, %d of them also x %d history variants, %d x %d further placements" % (len(trees), len(VARIANTS), len(hist), len(HIST_VARIANTS), len(extra), len(EXTRA_VARIANTS) + len(UNMODELLED_VARIANTS)))
     t0 = time.time()
-    model = run_model(ctx, trees, extra)
+    model = run_model(ctx, trees, extra, BLK_FAMILY[0])
     ctx.log("model: %d lines in %.1fs" % (len(model), time.time() - t0))
     t0 = time.time()
     # trees the model expects to fail at run time cost one process per variant: the quick tier runs a seeded sample of them
@@ -1286,7 +1401,10 @@ def run(ctx):
         drop = set(failing) - set(ctx.rng.sample(failing, min(len(failing), 300)))
         keep -= drop
         ctx.log("quick tier: %d of %d failing trees sampled" % (len(failing) - len(drop), len(failing)))
-    hres = run_all(ctx, runner, trees, model, keep, hist, extra)
+    blk = BLK_FAMILY[0]
+    ctx.log("block-locals family: %d trees x %d placements in nested-block locals (depth 1..3, with/without outer locals, 6 histories)" % (
+        len(blk), len(BLOCK_VARIANTS) + len(REC_VARIANTS) + len(BREF_VARIANTS)))
+    hres = run_all(ctx, runner, trees, model, keep, hist, extra, blk=blk)
     ctx.log("hawk: %d results from %d processes in %.1fs" % (len(hres), runner.nproc, time.time() - t0))
 
     # ---- phase 1: the property, on hawk's output alone
@@ -1319,7 +1437,7 @@ def run(ctx):
                 lines = eval_tree(runner, small)
                 v = variants_agree(lines, Info(small)) or (kind, msg)
             oracle_hit = True
-            mdl = {vv: model.get((c, base_of(vv)), "") for vv in ALL_VARIANTS} if small is tree else None
+            mdl = {vv: model.get((c, model_base(vv)), "") for vv in ALL_VARIANTS} if small is tree else None
             ctx.problem("impl", ("the value of `%s` depends on where its operands are stored (%d such trees): %s" if kind == "diff" else
                                  "evaluating `%s` kills the interpreter (%d such trees): %s") % (
                 render(small, sp, lambda i: "x%d" % i, lambda i: True), len(lst), v[1]),
@@ -1352,9 +1470,9 @@ def run(ctx):
     nrelaxed = 0
     mism = []
     for (c, v), h in hres.items():
-        if base_of(v) not in MODELLED:
+        if model_base(v) not in MODELLED:
             continue
-        m = model.get((c, base_of(v)), "")
+        m = model.get((c, model_base(v)), "")
         if m.startswith("?"):
             nrelaxed += 1
             continue
@@ -1370,7 +1488,7 @@ def run(ctx):
         _, c, v, h, m = mism[0]
         # is it covered by a signature already reported (eager folding shows as lit-only error, same on both sides -> no mismatch)
         lines = {vv: hres[(c, vv)] for vv in ALL_VARIANTS if (c, vv) in hres}
-        mdl = {vv: model.get((c, base_of(vv)), "") for vv in ALL_VARIANTS}
+        mdl = {vv: model.get((c, model_base(vv)), "") for vv in ALL_VARIANTS}
         ctx.problem("corr", "the Lean model disagrees with the interpreter on `%s` (variant %s): hawk %r, model %r (%d differing lines of %d); %s" % (
             render(trees[c], sp, lambda i: "x%d" % i, lambda i: True), v, h, m, len(mism), ncmp, THEOREMS_NOTE),
             replay_text(runner, trees[c], lines, mdl, "model/implementation correspondence broken (all hawk variants agree with each other); first differing line: variant %s hawk %r model %r; %s" % (v, h, m, THEOREMS_NOTE)),
@@ -1418,15 +1536,24 @@ def run(ctx):
                     "(literal/folded, named, @global, @local, parameter, by-reference parameter, map[str], map[int], hawk::array); a history family "
                     "(comparison/arithmetic/concat/inc-dec/assignment over numeric-looking strings, byte strings, boxed ints, floats, plus a seeded sample of all "
                     "other trees) additionally runs every placement with a cache-churning preamble between operand creation and evaluation; oracle: identical "
-                    "`typename [value]` lines for the result and every operand's final value across variants, pair equalities, no crash; then every line "
+                    "`typename [value]` lines for the result and every operand's final value across variants, pair equalities, no crash; "
+                    "a block-locals family (every corpus tree, a seeded sample of the trees with an operand that starts as nil and of the rest) additionally runs "
+                    "with the operands in `@local`s of a nested block at depth 1..3, enclosing blocks with / without locals of their own (sentinels that must "
+                    "survive), after a history in the same frame slots (sibling block, sibling's nested block shifted by one slot, previous loop iteration, "
+                    "previous call, recursive call of the same function, by-reference arguments) that left values of other types; then every line "
                     "compared with the Lean model (cases the float emulation cannot predict are compared among variants only). "
                     "distinct_nontrivial = distinct trees that fold numeric literals, assign, raise an error, or mix operand types",
                     samples,
                     extra_cov=dict(tree_sources=dist, operator_distribution=opdist, classes=classes, hawk_processes=runner.nproc,
                                    model_compared=ncmp, model_relaxed=nrelaxed, model_mismatches=len(mism), skipped_trees=skipped,
-                                   pairs=len(pair_idx), translator="extract/op_tables.py -> lean/HawkModel/Gen/OpTables.lean"),
+                                   pairs=len(pair_idx), translator="extract/op_tables.py -> lean/HawkModel/Gen/OpTables.lean",
+                                   block_family=len(BLK_FAMILY[0]), block_placements=len(BLOCK_VARIANTS) + len(REC_VARIANTS) + len(BREF_VARIANTS),
+                                   block_results=sum(1 for (c, v) in hres if v.startswith("blk"))),
                     trusted=["HawkModel/Expr.lean transcribes eval_binop_*, eval_unary, eval_incpre/pst, eval_assignment, do_assignment_*, eval_indexed, "
                              "hawk_rtx_evalcall copy-back and fold_constants_for_binop by hand; the operator tables are extracted (T)",
+                             "HawkModel/ExprBlock.lean transcribes parse_block's slot assignment and run_block0's push / reset by hand; the node-type -> evaluator table, "
+                             "do_assignment's switch, run_block0's conditions and loop bounds and parse_block's counters are extracted (T); the frame is a function "
+                             "Nat -> Cell (no stack bound, pop = no-op); function calls are modelled only as evalCallByRef / evalCallByRefBlk (inlined body, no recursion)",
                              "signed overflow of + - * and shift counts outside 0..63 are modelled as the x86-64 build computes them (wrap-around, count mod 64); they are undefined in ISO C",
                              "floats: theorems are for an abstract float type; the driver emulates the x87 80-bit format of this platform with exact integers; "
                              "string<->number conversion, %.6g rendering, comparison (C11) and matching are parameters of the model implemented only in the driver"],
@@ -1454,7 +1581,7 @@ def replay(ctx, path):
         print("  " + render(tree, sp, lambda i: "x%d" % i, lambda i: True))
         for v in ALL_VARIANTS:
             if v in lines:
-                print("  %-8s hawk: %-50s model: %s" % (v, lines[v], model.get((c, base_of(v)), "(not modelled)")))
+                print("  %-8s hawk: %-50s model: %s" % (v, lines[v], model.get((c, model_base(v)), "(not modelled)")))
         r = variants_agree(lines, Info(tree))
         if r is not None:
             print("  -> " + r[0] + ": " + r[1])
